@@ -1,0 +1,150 @@
+//go:build verif
+
+// Round 6, area K: contracts for apps/nsqlookupd (C14 C15): the flag set (every flag's default is the value of the SAME option of
+// NewOptions()), option resolution before New, a failed New is fatal, Main started once, Exit only through the Once. Comment-only file.
+// Assumed library contracts: .trusted/r6K.spec (flag defaults), r5I.spec (package flag, svc.Run), and the in-package externs below.
+//
+// logFatal (lg.LogFatal -> log line, os.Exit(1)) has NO contract: a function that never returns cannot carry one (vacuity guard, notes
+// area_r5I gap I1). It is inlined at every call site down to os.Exit ("does not return", hfile.spec), so "a failure is fatal" is checked
+// at the callers: on every path that RETURNS from Start the failing call did not fail.
+
+package main
+
+// ---- library calls as seen from this package ------------------------------------------------------------------------------------------
+// flag.FlagSet.Var(value, name, usage): defines the flag `name` whose default is the CURRENT content of the variable behind `value`
+// (Getter.Get() of the untouched flag). The only Var flag of this program is --log-level, a *lg.LogLevel: its default is recorded.
+//@ extern[in github.com/nsqio/nsq/apps/nsqlookupd] (*flag.FlagSet).Var(fs, value, name, usage)
+//@   modifies r5IFlags
+//@   onreturn r5IFlags := setadd(r5IFlags, r5IFlagKey(fs, name))
+//@   onreturn r6KFlagDefs := setadd(r6KFlagDefs, r6KDefInt(fs, name, *unbox(value, "*lg.LogLevel")))
+
+// go-options: Resolve(options, flagSet, cfg) writes the exported fields of *options (from flags, config file, flag defaults) and nothing
+// else; the call is recorded: how many, which options object, which flag set, and how many listeners nsqlookupd had opened by then
+// (nsqlookupd.New opens at least one per call: "resolved before New" = the Resolve saw none of this Start's listens).
+//@ ghost r6KLResolves int
+//@ ghost r6KLResolvedOpts interface{}
+//@ ghost r6KLResolvedFlags *flag.FlagSet
+//@ ghost r6KLResolveSawListens int
+//@ ghostgroup r6KLResolves, r6KLResolvedOpts, r6KLResolvedFlags, r6KLResolveSawListens
+//@ extern[in github.com/nsqio/nsq/apps/nsqlookupd] github.com/mreiferson/go-options.Resolve(options, flagSet, cfg)
+//@   modifies *unbox(options, "*nsqlookupd.Options"), r6KLResolves
+//@   onreturn r6KLResolves := r6KLResolves + 1
+//@   onreturn r6KLResolvedOpts := options
+//@   onreturn r6KLResolvedFlags := flagSet
+//@   onreturn r6KLResolveSawListens := r5GListens
+
+// sync.Once.Do: recorded (how many, on which Once); the closure is run by the library iff this is the first Do on that Once (documented
+// behaviour of sync.Once - ASSUMED); its body is verified as a function of its own (program.Stop$1).
+//@ extern[in github.com/nsqio/nsq/apps/nsqlookupd] (*sync.Once).Do(o, f)
+//@   modifies
+//@   onreturn r5IOnceDos := r5IOnceDos + 1
+//@   onreturn r5IOnceLast := o
+
+// svc.Environment.IsWindowsService, os.Chdir, filepath.Dir: no effect on modelled state.
+//@ benign (github.com/judwhite/go-svc.Environment).IsWindowsService, os.Chdir, path/filepath.Dir
+
+// p.nsqlookupd is written once, by Start (checked by the SSA sweep); Stop$1 / Start$1 read the daemon Start stored.
+//@ constructors (*main.program).Start
+//@ immutable program.nsqlookupd
+
+// ---- the flag set ---------------------------------------------------------------------------------------------------------------------
+// C14: "... recently-pinged nsqds ..." (inactive-producer-timeout) and "a tombstone ... lapses after the tombstone lifetime": the two
+// thresholds the registry filters with reach the daemon through these flags. EVERY flag is defined with the value of the SAME option of
+// the options object it is given (= NewOptions(), see Start): one clause per flag.
+//@ func nsqlookupdFlagSet(opts *nsqlookupd.Options) *flag.FlagSet
+//@   props C14 C15
+//@   requires opts != nil
+//@   ensures[a-new-flag-set] result != nil && fresh(result)
+//@   ensures[version-and-config-defined] setin(r5IBoolFlags, r5IFlagKey(result, "version")) && setin(r5IFlags, r5IFlagKey(result, "version")) && setin(r5IFlags, r5IFlagKey(result, "config"))
+//@   ensures[default-tombstone-lifetime] setin(r6KFlagDefs, r6KDefInt(result, "tombstone-lifetime", opts.TombstoneLifetime))
+//@   ensures[default-inactive-producer-timeout] setin(r6KFlagDefs, r6KDefInt(result, "inactive-producer-timeout", opts.InactiveProducerTimeout))
+//@   ensures[default-tcp-address] setin(r6KFlagDefs, r6KDefStr(result, "tcp-address", opts.TCPAddress))
+//@   ensures[default-http-address] setin(r6KFlagDefs, r6KDefStr(result, "http-address", opts.HTTPAddress))
+//@   ensures[default-broadcast-address] setin(r6KFlagDefs, r6KDefStr(result, "broadcast-address", opts.BroadcastAddress))
+//@   ensures[default-log-level] setin(r6KFlagDefs, r6KDefInt(result, "log-level", opts.LogLevel))
+//   (--log-prefix is defined with a literal: the same text NewOptions gives, NewOptions/[log-defaults])
+//@   ensures[default-log-prefix] setin(r6KFlagDefs, r6KDefStr(result, "log-prefix", "[nsqlookupd] "))
+//@   ensures[default-no-config-file-no-version] setin(r6KFlagDefs, r6KDefStr(result, "config", "")) && setin(r6KFlagDefs, r6KDefBool(result, "version", false))
+//@   ensures[options-untouched] opts.TombstoneLifetime == old(opts.TombstoneLifetime) && opts.InactiveProducerTimeout == old(opts.InactiveProducerTimeout)
+//@   modifies r5IFlags, r5IBoolFlags
+//@   nochan
+
+// ---- Init -----------------------------------------------------------------------------------------------------------------------------
+// Init only changes the working directory when run as a Windows service; no daemon exists yet, nothing modelled is written.
+//@ func (p *program) Init(env svc.Environment) error
+//@   props C14 C15
+//@   requires p != nil && env != nil
+//   (environment: the operating system passes at least the program name)
+//@   requires[program-name-present] len(os.Args) >= 1
+//@   modifies
+//@   nochan
+
+// ---- Start ----------------------------------------------------------------------------------------------------------------------------
+// The options are NewOptions() resolved against the flag set built FROM THAT OBJECT (so each flag's default is the option's default:
+// [defaults-survive-the-flag-set] spells out the two C14 thresholds, 300 s and 45 s) and the config file, exactly once and BEFORE
+// nsqlookupd.New opens a listener; New is called once with the very object that was resolved; a failed New is fatal (Start does not
+// return); the daemon stored in p.nsqlookupd is the one New returned; the goroutine that runs Main is spawned once, after that.
+//@ func (p *program) Start() error
+//@   props C14 C15
+//@   requires p != nil
+//@   requires[program-name-present] len(os.Args) >= 1
+//@   ensures[options-resolved-once] r6KLResolves == old(r6KLResolves) + 1
+//@   ensures[resolved-against-the-flag-set-of-these-options] dyntype(r6KLResolvedOpts) == typetag("*nsqlookupd.Options") && unbox(r6KLResolvedOpts, "*nsqlookupd.Options") == final(opts) && r6KLResolvedFlags == final(flagSet)
+//@   ensures[defaults-survive-the-flag-set] setin(r6KFlagDefs, r6KDefInt(r6KLResolvedFlags, "tombstone-lifetime", 45 * time.Second)) && setin(r6KFlagDefs, r6KDefInt(r6KLResolvedFlags, "inactive-producer-timeout", 300 * time.Second))
+//@   ensures[resolved-before-new] r6KLResolveSawListens == old(r5GListens)
+//@   ensures[daemon-built-once-from-the-resolved-options] r5GListens == old(r5GListens) + 2 && r5GListenOK == old(r5GListenOK) + 2 && p.nsqlookupd != nil && p.nsqlookupd.opts == final(opts)
+//@   ensures[main-started-once] r6KLMainSpawns == old(r6KLMainSpawns) + 1
+//@   ensures[main-started-last] r6KLSpawnSawListenOK == old(r5GListenOK) + 2 && r6KLSpawnSawResolves == old(r6KLResolves) + 1
+//@   ensures[main-not-run-by-start] r5GWraps == old(r5GWraps) && r5GLWaits == old(r5GLWaits)
+//@   ensures[ok] result == nil
+
+// The goroutine Start spawns: how many, and what had happened before the `go` statement.
+//@ ghost r6KLMainSpawns int
+//@ ghost r6KLSpawnSawListenOK int
+//@ ghost r6KLSpawnSawResolves int
+//@ ghostgroup r6KLMainSpawns, r6KLSpawnSawListenOK, r6KLSpawnSawResolves
+
+// The goroutine: runs Main on the daemon (Main/[both-servers-started]: the two servers of THIS daemon's wait group); if Main fails the
+// daemon is stopped through Stop (= the Once) and the process exits with status 1 - so the function RETURNS only after a Main that
+// reported no error, and then nothing was stopped here.
+//@ func (p *program) Start$1()
+//@   props C14 C15
+//@   requires p != nil && p.nsqlookupd != nil
+//@   onspawn r6KLMainSpawns := r6KLMainSpawns + 1
+//@   onspawn r6KLSpawnSawListenOK := r5GListenOK
+//@   onspawn r6KLSpawnSawResolves := r6KLResolves
+//@   ensures[main-of-this-daemon-once] r5GWraps == old(r5GWraps) + 2 && r5GWrapOn == &p.nsqlookupd.waitGroup
+//@   ensures[returns-only-after-a-clean-main] final(err) == nil
+//@   ensures[clean-main-stops-nothing] r5IOnceDos == old(r5IOnceDos) && r5GLWaits == old(r5GLWaits) && r5GLsnCloses == old(r5GLsnCloses)
+
+// Stop: the daemon's Exit is reached ONLY through p.once - one Do per Stop, on this program's Once, and Stop itself never calls Exit.
+//@ func (p *program) Stop() error
+//@   props C14 C15
+//@   requires p != nil
+//@   ensures[exit-only-through-the-once] r5IOnceDos == old(r5IOnceDos) + 1 && r5IOnceLast == &p.once
+//@   ensures[never-exits-directly] r5GLWaits == old(r5GLWaits) && r5GLsnCloses == old(r5GLsnCloses)
+//@   ensures[ok] result == nil
+//@   modifies r5IOnceDos, r5IOnceLast
+
+// The function the Once runs: exactly one Exit, on the daemon Start built (Exit/[waits-last]: one wait, on THIS daemon's wait group, after
+// its listeners and connections were closed).
+//@ func (p *program) Stop$1()
+//@   props C14 C15
+//@   requires p != nil
+//   (call protocol: Stop is called after Start stored the daemon)
+//@   requires[started] p.nsqlookupd != nil
+//@   ensures[one-exit-of-this-daemon] r5GLWaits == old(r5GLWaits) + 1 && r5GLWaited == &(&p.nsqlookupd.waitGroup).WaitGroup
+//@   ensures[registry-untouched] mAddCalls == old(mAddCalls) && mRemCalls == old(mRemCalls) && mTombCalls == old(mTombCalls)
+
+// main: one fresh program is handed to svc.Run, once, watching SIGINT and SIGTERM.
+//@ func main()
+//@   props C14 C15
+//@   ensures[runs-one-fresh-program] r5ISvcRuns == old(r5ISvcRuns) + 1 && dyntype(r5ISvcService) == typetag("*program") && fresh(unbox(r5ISvcService, "*program"))
+//@   ensures[watches-int-and-term] len(r5ISvcSignals) == 2
+
+// Validate: translates log_level of the config-file map in place (a level that does not parse is fatal); nothing else is written.
+//@ func (cfg config) Validate()
+//@   props C14 C15
+//@   ensures[only-log-level-translated] forall k string :: {cfg[k]} k != "log_level" ==> has(cfg, k) == old(has(cfg, k)) && cfg[k] == old(cfg[k])
+//@   modifies mapof(cfg)
+//@   nochan
